@@ -51,6 +51,9 @@ func (s *Sim) alarm(prop, clause, msg string) {
 	if s.faultMode != world.None {
 		inj = ":" + s.faultMode.String()
 	}
+	if s.faultTag != "" {
+		op = s.faultTag
+	}
 	sig := fmt.Sprintf("%s:%s%s", clause, op, inj)
 	s.Alarms = append(s.Alarms, Alarm{Prop: prop, Sig: sig, Msg: msg})
 }
@@ -305,6 +308,17 @@ func (s *Sim) afterStep() {
 		}
 	}
 
+	if s.compoundCheck {
+		// only state invariants are meaningful after an interleaved execution
+		s.checkProviderInvariants(v)
+		s.prevDump = v.dump
+		s.prevPoolCnt = map[string]int{}
+		for k := range s.released200 {
+			delete(s.released200, k)
+		}
+		s.Counts["interleaved_executions_checked"]++
+		return
+	}
 	// ---- M-keep: C03 "kept until", C09 reload, C01 moved ----
 	s.checkKeep(v, op)
 
@@ -495,6 +509,49 @@ func (s *Sim) checkPools(v *view) {
 
 // ---- M-provider ----
 
+// afterCompound evaluates the state-invariant monitors after an interleaved execution.
+func (s *Sim) afterCompound() {
+	s.compound = false
+	s.compoundCheck = true
+	s.afterStep()
+	s.compoundCheck = false
+}
+
+// checkProviderInvariants: call log through the state machine + "live bound pod's IPs are assigned to its node".
+func (s *Sim) checkProviderInvariants(v *view) {
+	if s.W.Provider == nil {
+		return
+	}
+	// concurrent calls on one IP may be logged in either order: only the end-state invariant is judged
+	calls := s.W.Provider.Snapshot()
+	for _, c := range calls[s.provSeen:] {
+		if !c.OK {
+			continue
+		}
+		if c.Assign {
+			s.provState[c.IP] = c.Node
+		} else {
+			delete(s.provState, c.IP)
+		}
+	}
+	s.provSeen = len(calls)
+	for _, p := range v.pods {
+		if !world.Live(p) || p.Spec.NodeName == "" {
+			continue
+		}
+		b, ok := v.told[string(p.UID)]
+		r := s.rec(p)
+		if !ok || r == nil || !r.ProvAtBind || r.Exempt {
+			continue
+		}
+		for _, ip := range b.IPs {
+			if n, ok := s.provState[ip]; !ok || n != p.Spec.NodeName {
+				s.alarm("C10", "live-pod-ip-not-assigned-to-its-node", fmt.Sprintf("live pod %s on %s bound with %s, provider state: %q", p.Name, p.Spec.NodeName, ip, n))
+			}
+		}
+	}
+}
+
 func (s *Sim) checkProvider(v *view) {
 	if s.W.Provider == nil {
 		return
@@ -507,7 +564,15 @@ func (s *Sim) checkProvider(v *view) {
 		}
 		if c.Assign {
 			if cur, ok := s.provState[c.IP]; ok && cur != c.Node {
-				s.alarm("C10", "assigned-to-second-node", fmt.Sprintf("provider AssignIP(%s,%s) while still assigned to %s", c.IP, c.Node, cur))
+				clause := "assigned-to-second-node"
+				if e, ok := v.dump[c.IP]; ok {
+					if pk, ok := model.ParseKey(e.Key); ok {
+						if wl := s.wlByKey(pk); wl != nil && len(rangeLists(wl.Ranges)) > 1 {
+							clause += ":multi-ip-key" // an earlier resync/release of a sibling IP cleared this IP's node without unassigning it
+						}
+					}
+				}
+				s.alarm("C10", clause, fmt.Sprintf("provider AssignIP(%s,%s) while still assigned to %s", c.IP, c.Node, cur))
 				s.Counts["provider_moves"]++
 			}
 			s.provState[c.IP] = c.Node
